@@ -11,6 +11,10 @@ use super::{Fixed, Name, SchemaError};
 
 pub use check_for_cycles::UnconditionalCycle;
 
+#[cfg(ten0_serde_avro_fast_verif)]
+#[doc(hidden)]
+pub use canonical_form::verif;
+
 /// An editable representation of an Avro schema
 ///
 /// In there, references to other nodes are represented as [`SchemaKey`], which
